@@ -360,6 +360,7 @@ type runner struct {
 	line    int
 	wg      *sync.WaitGroup
 	scratch [512]byte
+	pty     *Pty
 }
 
 var errFill = errors.New("filler failed")
@@ -467,7 +468,7 @@ func (r *runner) do(client int, op Op) {
 	x := r.x
 	var bar *mpb.Bar
 	switch op.K {
-	case "add", "write", "writebuf", "refresh", "cancel", "shutdown", "undelay", "yield", "pwait", "join":
+	case "add", "write", "writebuf", "refresh", "cancel", "shutdown", "undelay", "yield", "pwait", "join", "closepty":
 	default:
 		if op.B < 0 || op.B >= len(r.bars) || r.bars[op.B] == nil {
 			x.Calls = append(x.Calls, Call{Client: client, Op: op.String(), Inv: mcrt.Step(), Ret: mcrt.Step() + 1, Res: "skipped"})
@@ -547,6 +548,15 @@ func (r *runner) do(client int, op Op) {
 			mcrt.Yield()
 		case "join":
 			r.wg.Wait() // all client threads have finished their operations
+		case "closepty":
+			// the terminal goes away: the next size query (and write) fails
+			if r.pty != nil {
+				if x.FaultStep == 0 {
+					x.FaultStep = mcrt.Step()
+					x.FaultText = "*"
+				}
+				r.pty.Slave.Close()
+			}
 		case "traverse":
 			n := 0
 			bar.TraverseDecorators(func(decor.Decorator) { n++ })
@@ -601,6 +611,7 @@ func (sp *Spec) Run(x *X) {
 			return
 		}
 		opts[0] = mpb.WithOutput(pty.Slave)
+		r.pty = pty
 	}
 	switch sp.Refresh {
 	case "auto":
